@@ -1,11 +1,455 @@
 package main
 
-// tryReplay instantiates a replay template from the model of a refuted obligation and runs it on the
-// real code. It returns the path of the replay file and whether the failure was reproduced.
+import (
+	"bytes"
+	"encoding/json"
+	"fmt"
+	"go/types"
+	"os"
+	"os/exec"
+	"path/filepath"
+	"regexp"
+	"strconv"
+	"strings"
+	"time"
+)
+
+// Replay: turn the model of a refuted obligation into a concrete input and run the real code on it.
+//
+// The obligation is re-generated with loops unrolled (bounded search, used only to find an input —
+// never to discharge anything) and, for functions reading from a packetDecoder, with the decoder
+// made concrete (*realDecoder over a symbolic byte array), so that the model contains the bytes.
+
+const replayMaxBytes = 48
+
+type replayShape struct {
+	kind     string // "realDecoder-method", "decode-func"
+	pdParams []int  // indices of packetDecoder parameters
+}
+
+func (p *Prog) replayShapeOf(fi *FuncInfo) *replayShape {
+	if fi == nil || fi.Body == nil || fi.Lit != nil || fi.Sig == nil {
+		return nil
+	}
+	if strings.HasPrefix(fi.Key, "mocks.") {
+		return nil
+	}
+	if fi.Sig.Recv() != nil && namedOf(fi.Sig.Recv().Type()) == "realDecoder" {
+		for i := 0; i < fi.Sig.Params().Len(); i++ {
+			if p.sortOf(fi.Sig.Params().At(i).Type()) != "Int" || isRefLike(fi.Sig.Params().At(i).Type()) {
+				return nil
+			}
+		}
+		return &replayShape{kind: "realDecoder-method"}
+	}
+	sh := &replayShape{kind: "decode-func"}
+	for i := 0; i < fi.Sig.Params().Len(); i++ {
+		pt := fi.Sig.Params().At(i).Type()
+		if namedOf(pt) == "packetDecoder" {
+			sh.pdParams = append(sh.pdParams, i)
+		}
+	}
+	if len(sh.pdParams) == 0 {
+		return nil
+	}
+	return sh
+}
+
+type replayRecord struct {
+	Property   string            `json:"property"`
+	Obligation string            `json:"obligation"`
+	Function   string            `json:"function"`
+	Clause     string            `json:"clause"`
+	Pos        string            `json:"pos"`
+	Shape      string            `json:"shape"`
+	Inputs     map[string]string `json:"inputs"`
+	TestFile   string            `json:"test_file"`
+	Cmd        string            `json:"cmd"`
+	Output     string            `json:"output"`
+	Reproduced bool              `json:"reproduced"`
+	Criterion  string            `json:"criterion"`
+	SMTFile    string            `json:"smt_file"`
+}
+
 func tryReplay(p *Prog, prop string, r *Result) (string, bool) {
+	if os.Getenv("VERIF_NO_REPLAY") != "" {
+		return "", false
+	}
+	fi := p.funcs[r.Ob.Func]
+	sh := p.replayShapeOf(fi)
+	if sh == nil {
+		return "", false
+	}
+	switch r.Ob.Kind {
+	case "index", "slice", "make", "make-bound", "nilmap", "div", "typeassert", "panic":
+	default:
+		return "", false
+	}
+	// re-lower with unrolled loops / concrete decoder
+	saved := p.opts
+	p.opts = lowerOpts{unroll: 2, concretePD: sh.kind == "decode-func"}
+	defer func() { p.opts = saved }()
+	ct := p.contractFor(fi)
+	f, err := p.lowerTop(fi, ct)
+	if err != nil {
+		if os.Getenv("VERIF_DEBUG") != "" {
+			fmt.Println("replay lowering failed:", err)
+		}
+		return "", false
+	}
+	qs, err := generateVCs(p, f)
+	if err != nil {
+		if os.Getenv("VERIF_DEBUG") != "" {
+			fmt.Println("replay vcgen failed:", err)
+		}
+		return "", false
+	}
+	dir := filepath.Join(verifDir, "replays", prop)
+	os.MkdirAll(dir, 0o755)
+	base := sanitizeFile(r.Ob.Name)
+	n := 0
+	for _, q := range qs {
+		if q.Ob.Kind != r.Ob.Kind || q.Ob.Pos != r.Ob.Pos || q.Ob.Descr != r.Ob.Descr || q.Ob.Canary {
+			continue
+		}
+		n++
+		if n > 6 {
+			break
+		}
+		rec := p.replayOne(prop, fi, sh, f, q, r, filepath.Join(dir, fmt.Sprintf("%s.%d", base, n)))
+		if rec != nil && rec.Reproduced {
+			path := filepath.Join(dir, base+".replay.json")
+			data, _ := json.MarshalIndent(rec, "", " ")
+			os.WriteFile(path, data, 0o644)
+			return path, true
+		}
+	}
 	return "", false
 }
 
+var reValue = regexp.MustCompile(`\(rv_(\d+)\s+(\(-\s*\d+\)|-?\d+|true|false)\)`)
+
+func (p *Prog) replayOne(prop string, fi *FuncInfo, sh *replayShape, f *FuncIVL, q *Query, r *Result, stem string) *replayRecord {
+	// terms to read from the model
+	type want struct {
+		name string
+		smt  string
+	}
+	var wants []want
+	var extra []string
+	decoders := []string{}
+	switch sh.kind {
+	case "realDecoder-method":
+		decoders = append(decoders, "$p."+fi.Sig.Recv().Name())
+	case "decode-func":
+		for _, i := range sh.pdParams {
+			decoders = append(decoders, "$p."+fi.Sig.Params().At(i).Name())
+		}
+	}
+	incOf := func(v string) string {
+		if n, ok := q.IncOf[v]; ok {
+			return n
+		}
+		return v
+	}
+	for di, d := range decoders {
+		if _, ok := f.Vars[d]; !ok {
+			return nil
+		}
+		d = incOf(d)
+		decoders[di] = d
+		raw := fmt.Sprintf("(select F.realDecoder.raw %s)", smtName(d))
+		if _, ok := f.Vars["F.realDecoder.raw"]; !ok {
+			return nil
+		}
+		extra = append(extra, fmt.Sprintf("(assert (<= (len_Slice_Int %s) %d))", raw, replayMaxBytes))
+		extra = append(extra, fmt.Sprintf("(assert (= (off_Slice_Int %s) 0))", raw))
+		extra = append(extra, fmt.Sprintf("(assert (not (nil_Slice_Int %s)))", raw))
+		wants = append(wants, want{fmt.Sprintf("len%d", di), fmt.Sprintf("(len_Slice_Int %s)", raw)})
+		if _, ok := f.Vars["F.realDecoder.off"]; ok {
+			if sh.kind == "decode-func" {
+				extra = append(extra, fmt.Sprintf("(assert (= (select F.realDecoder.off %s) 0))", smtName(d)))
+			}
+			wants = append(wants, want{fmt.Sprintf("off%d", di), fmt.Sprintf("(select F.realDecoder.off %s)", smtName(d))})
+		}
+		for k := 0; k < replayMaxBytes; k++ {
+			wants = append(wants, want{fmt.Sprintf("b%d_%d", di, k), fmt.Sprintf("(select (arr_Slice_Int %s) %d)", raw, k)})
+			extra = append(extra, fmt.Sprintf("(assert (and (<= 0 (select (arr_Slice_Int %s) %d)) (<= (select (arr_Slice_Int %s) %d) 255)))", raw, k, raw, k))
+		}
+	}
+	if len(decoders) == 2 {
+		extra = append(extra, fmt.Sprintf("(assert (distinct %s %s))", smtName(decoders[0]), smtName(decoders[1])))
+	}
+	// scalar parameters
+	for i := 0; i < fi.Sig.Params().Len(); i++ {
+		pv := fi.Sig.Params().At(i)
+		if pv.Name() == "" || pv.Name() == "_" {
+			continue
+		}
+		if _, _, ok := intRange(pv.Type()); ok {
+			if _, declared := f.Vars["$p."+pv.Name()]; declared {
+				wants = append(wants, want{"arg." + pv.Name(), smtName(incOf("$p." + pv.Name()))})
+			}
+		}
+	}
+	// build query: strip the trailing (check-sat)
+	text := strings.TrimSuffix(strings.TrimSpace(q.Text), "(check-sat)")
+	var sb strings.Builder
+	sb.WriteString(text)
+	sb.WriteString("\n")
+	for _, e := range extra {
+		sb.WriteString(e + "\n")
+	}
+	for i, w := range wants {
+		fmt.Fprintf(&sb, "(declare-const rv_%d Int)\n(assert (= rv_%d %s))\n", i, i, w.smt)
+	}
+	sb.WriteString("(check-sat)\n(get-value (")
+	for i := range wants {
+		fmt.Fprintf(&sb, "rv_%d ", i)
+	}
+	sb.WriteString("))\n")
+	smtFile := stem + ".smt2"
+	os.WriteFile(smtFile, []byte(sb.String()), 0o644)
+	var out string
+	status := ""
+	for _, s := range []solverSpec{solvers[0], solvers[1]} {
+		st, o, _ := runSolverCtx(s, smtFile, 20)
+		if st == "sat" {
+			status, out = st, o
+			break
+		}
+	}
+	if status != "sat" {
+		if os.Getenv("VERIF_DEBUG") != "" {
+			fmt.Println("replay query not sat:", smtFile, firstLines(out, 2))
+		}
+		return nil
+	}
+	vals := map[string]int64{}
+	for _, m := range reValue.FindAllStringSubmatch(out, -1) {
+		idx, _ := strconv.Atoi(m[1])
+		vs := strings.NewReplacer("(", "", ")", "", " ", "").Replace(m[2])
+		v, err := strconv.ParseInt(vs, 10, 64)
+		if err != nil {
+			continue
+		}
+		if idx < len(wants) {
+			vals[wants[idx].name] = v
+		}
+	}
+	// concrete inputs
+	rec := &replayRecord{Property: prop, Obligation: r.Ob.Name, Function: fi.Key, Clause: r.Ob.Descr, Pos: r.Ob.Pos,
+		Shape: sh.kind, Inputs: map[string]string{}, SMTFile: smtFile}
+	var raws []string
+	for di := range decoders {
+		n := int(vals[fmt.Sprintf("len%d", di)])
+		if n < 0 || n > replayMaxBytes {
+			return nil
+		}
+		var bs []string
+		for k := 0; k < n; k++ {
+			bs = append(bs, fmt.Sprintf("0x%02x", vals[fmt.Sprintf("b%d_%d", di, k)]&0xff))
+		}
+		lit := "[]byte{" + strings.Join(bs, ", ") + "}"
+		raws = append(raws, lit)
+		rec.Inputs[fmt.Sprintf("raw%d", di)] = lit
+		if off, ok := vals[fmt.Sprintf("off%d", di)]; ok {
+			rec.Inputs[fmt.Sprintf("off%d", di)] = fmt.Sprint(off)
+		}
+	}
+	// harness
+	var body strings.Builder
+	qual := func(t types.Type) string {
+		return types.TypeString(t, func(pk *types.Package) string {
+			if pk.Path() == fi.Pkg.PkgPath {
+				return ""
+			}
+			return pk.Name()
+		})
+	}
+	switch sh.kind {
+	case "realDecoder-method":
+		off := vals["off0"]
+		fmt.Fprintf(&body, "\trd := &realDecoder{raw: %s, off: %d}\n", raws[0], off)
+		var args []string
+		for i := 0; i < fi.Sig.Params().Len(); i++ {
+			pv := fi.Sig.Params().At(i)
+			args = append(args, fmt.Sprintf("%s(%d)", qual(pv.Type()), vals["arg."+pv.Name()]))
+			rec.Inputs["arg."+pv.Name()] = fmt.Sprint(vals["arg."+pv.Name()])
+		}
+		fmt.Fprintf(&body, "\tinputLen = len(rd.raw)\n")
+		call := fmt.Sprintf("rd.%s(%s)", fi.Obj.Name(), strings.Join(args, ", "))
+		if fi.Sig.Results().Len() > 0 {
+			lhs := strings.TrimSuffix(strings.Repeat("_, ", fi.Sig.Results().Len()), ", ")
+			fmt.Fprintf(&body, "\t%s = %s\n", lhs, call)
+		} else {
+			fmt.Fprintf(&body, "\t%s\n", call)
+		}
+	case "decode-func":
+		var args []string
+		di := 0
+		for i := 0; i < fi.Sig.Params().Len(); i++ {
+			pv := fi.Sig.Params().At(i)
+			isPD := false
+			for _, k := range sh.pdParams {
+				if k == i {
+					isPD = true
+				}
+			}
+			switch {
+			case isPD:
+				fmt.Fprintf(&body, "\tpd%d := &realDecoder{raw: %s}\n\tinputLen += len(pd%d.raw)\n", di, raws[di], di)
+				args = append(args, fmt.Sprintf("pd%d", di))
+				di++
+			default:
+				if _, _, ok := intRange(pv.Type()); ok {
+					args = append(args, fmt.Sprintf("%s(%d)", qual(pv.Type()), vals["arg."+pv.Name()]))
+					rec.Inputs["arg."+pv.Name()] = fmt.Sprint(vals["arg."+pv.Name()])
+				} else {
+					fmt.Fprintf(&body, "\tvar a%d %s\n", i, qual(pv.Type()))
+					args = append(args, fmt.Sprintf("a%d", i))
+				}
+			}
+		}
+		call := ""
+		if fi.Sig.Recv() != nil {
+			rt := fi.Sig.Recv().Type()
+			if pt, ok := rt.(*types.Pointer); ok {
+				fmt.Fprintf(&body, "\trecv := new(%s)\n", qual(pt.Elem()))
+			} else {
+				fmt.Fprintf(&body, "\tvar recv %s\n", qual(rt))
+			}
+			call = fmt.Sprintf("recv.%s(%s)", fi.Obj.Name(), strings.Join(args, ", "))
+		} else {
+			call = fmt.Sprintf("%s(%s)", fi.Obj.Name(), strings.Join(args, ", "))
+		}
+		if fi.Sig.Results().Len() > 0 {
+			lhs := strings.TrimSuffix(strings.Repeat("_, ", fi.Sig.Results().Len()), ", ")
+			fmt.Fprintf(&body, "\t%s = %s\n", lhs, call)
+		} else {
+			fmt.Fprintf(&body, "\t%s\n", call)
+		}
+	}
+	test := fmt.Sprintf(`package sarama
+
+// Generated by govc from the solver's counterexample for obligation
+//   %s
+//   %s  [%s]
+// Runs the real function on the concrete input.
+
+import (
+	"fmt"
+	"runtime"
+	"testing"
+)
+
+func TestVerifReplay(t *testing.T) {
+	var inputLen int
+	var ms0, ms1 runtime.MemStats
+	runtime.ReadMemStats(&ms0)
+	defer func() {
+		if r := recover(); r != nil {
+			fmt.Printf("REPLAY-PANIC: %%v\n", r)
+			return
+		}
+		runtime.ReadMemStats(&ms1)
+		fmt.Printf("REPLAY-RESULT: returned normally alloc=%%d inputlen=%%d\n", ms1.TotalAlloc-ms0.TotalAlloc, inputLen)
+	}()
+%s}
+`, r.Ob.Name, r.Ob.Descr, r.Ob.Pos, body.String())
+	testFile := stem + "_test.go"
+	os.WriteFile(testFile, []byte(test), 0o644)
+	rec.TestFile = testFile
+	outp, cmdline := runOverlayTest(testFile, "TestVerifReplay")
+	rec.Cmd = cmdline
+	rec.Output = truncate(outp, 4000)
+	switch r.Ob.Kind {
+	case "make-bound":
+		rec.Criterion = "allocation out of proportion to the input (> 1 MiB and > 1024 bytes per input byte), an out-of-memory abort, or a panic"
+		if strings.Contains(outp, "REPLAY-PANIC") || strings.Contains(outp, "out of memory") || strings.Contains(outp, "cannot allocate") {
+			rec.Reproduced = true
+		}
+		if m := regexp.MustCompile(`alloc=(\d+) inputlen=(\d+)`).FindStringSubmatch(outp); m != nil {
+			a, _ := strconv.ParseInt(m[1], 10, 64)
+			il, _ := strconv.ParseInt(m[2], 10, 64)
+			if a > 1<<20 && a > 1024*(il+1) {
+				rec.Reproduced = true
+			}
+		}
+	default:
+		rec.Criterion = "the real function panics on the input"
+		rec.Reproduced = strings.Contains(outp, "REPLAY-PANIC") || strings.Contains(outp, "panic:") || strings.Contains(outp, "fatal error")
+	}
+	if !rec.Reproduced {
+		data, _ := json.MarshalIndent(rec, "", " ")
+		os.WriteFile(stem+".notreproduced.json", data, 0o644)
+	}
+	return rec
+}
+
+func runSolverCtx(s solverSpec, file string, timeoutS int) (string, string, float64) {
+	args := s.args(file, timeoutS)
+	start := time.Now()
+	cmd := exec.Command(args[0], args[1:]...)
+	var buf bytes.Buffer
+	cmd.Stdout = &buf
+	cmd.Stderr = &buf
+	done := make(chan error, 1)
+	cmd.Start()
+	go func() { done <- cmd.Wait() }()
+	select {
+	case <-done:
+	case <-time.After(time.Duration(timeoutS+3) * time.Second):
+		cmd.Process.Kill()
+	}
+	out := buf.String()
+	first := strings.TrimSpace(strings.SplitN(out, "\n", 2)[0])
+	return first, out, time.Since(start).Seconds()
+}
+
+// runOverlayTest runs an in-package test injected with -overlay (nothing is written into /repo).
+func runOverlayTest(testFile, runName string) (string, string) {
+	ov := map[string]map[string]string{"Replace": {filepath.Join(repoDir, "zz_verif_replay_test.go"): testFile}}
+	ovFile := testFile + ".overlay.json"
+	data, _ := json.Marshal(ov)
+	os.WriteFile(ovFile, data, 0o644)
+	cmdline := fmt.Sprintf("cd %s && ulimit -v 8388608 && go test -overlay %s -vet=off -timeout 60s -count=1 -v -run '^%s$' .", repoDir, ovFile, runName)
+	cmd := exec.Command("sh", "-c", cmdline)
+	cmd.Env = append(os.Environ(), "GOFLAGS=-mod=mod", "GOPROXY=off", "GOSUMDB=off", "GOTOOLCHAIN=local")
+	var buf bytes.Buffer
+	cmd.Stdout = &buf
+	cmd.Stderr = &buf
+	done := make(chan error, 1)
+	cmd.Start()
+	go func() { done <- cmd.Wait() }()
+	select {
+	case <-done:
+	case <-time.After(150 * time.Second):
+		cmd.Process.Kill()
+	}
+	return buf.String(), cmdline
+}
+
+// cmdReplay re-runs a stored replay file.
 func cmdReplay(prop, path string) int {
+	data, err := os.ReadFile(path)
+	if err != nil {
+		fmt.Println("cannot read", path, err)
+		return 2
+	}
+	var rec replayRecord
+	if err := json.Unmarshal(data, &rec); err != nil || rec.TestFile == "" {
+		// a violation record without input
+		fmt.Println(string(data))
+		fmt.Println("no failing input is attached to this violation (no-failing-input-found)")
+		return 1
+	}
+	out, cmdline := runOverlayTest(rec.TestFile, "TestVerifReplay")
+	fmt.Println(cmdline)
+	fmt.Println(out)
+	if strings.Contains(out, "REPLAY-PANIC") || strings.Contains(out, "fatal error") || strings.Contains(out, "panic:") {
+		fmt.Printf("VIOLATION property=%s replay=%s\n", rec.Property, path)
+		return 1
+	}
 	return 0
 }
